@@ -92,7 +92,9 @@ func OracleC11(tr *Trace) Verdict {
 			// no other notification in (t_D, t_D+G]
 			other := false
 			for _, m := range ns[i+1:] {
-				if m.T <= due {
+				// (a "closed" notification is neither a reconnect nor a new disconnect: the connection is gone
+				// for good, and the grace period that is running keeps running)
+				if m.T <= due && m.Kind != ActClosed {
 					other = true
 					if m.Kind == ActReconnect {
 						v.Classes = append(v.Classes, "reconnect-within-grace")
